@@ -129,6 +129,11 @@ var refKinds = []string{"head", "tag", "remote", "txn"}
 func randomRepo(rng *rand.Rand, blk [][]int, mode string) *repoDesc {
 	d := &repoDesc{Mode: mode, Blk: blk}
 	d.N = 10 + rng.Intn(21)
+	if mode != "lib" && rng.Intn(2) == 0 {
+		// the on-disk store behaves differently once a listing runs over more than a hundred keys
+		// (iterators prefetch and recycle their items): some repositories of the command-line runs are large
+		d.N = 110 + rng.Intn(40)
+	}
 	m := len(blk)
 	// a few tables are popular: that is where sharing between live and dead commits comes from
 	for c := 1; c <= d.N; c++ {
@@ -296,6 +301,14 @@ func execute(u *Universe, d *repoDesc, scratch string) ([]*Event, error) {
 		return nil, err
 	}
 	if len(unknown) > 0 || !before.Equal(d.Before) {
+		// the harness built this store object by object: if its LISTING (what prune itself works from) names a
+		// key twice, names a key the store does not hold, or changes from one call to the next, the store is
+		// at fault, not the description
+		if f := listingFault(repo.DB); f != "" {
+			e := newEvent("storefault", d.Mode)
+			e.Err = f
+			return []*Event{e}, nil
+		}
 		return nil, fmt.Errorf("built store %+v (unknown %v) is not the described %+v", before, unknown, d.Before)
 	}
 	ev := d.event()
@@ -444,3 +457,4 @@ func Record(args []string) error {
 	}
 	return nil
 }
+
